@@ -12,6 +12,9 @@ pub struct Case {
     #[serde(with = "crate::dynv::json")]
     pub val: Dyn,
     pub opts: SerOpts,
+    /// sequences and mappings are serialized without a length hint
+    #[serde(default)]
+    pub no_len: bool,
 }
 
 pub fn leaves() -> Vec<Dyn> {
@@ -275,7 +278,10 @@ impl Prop for C13 {
         v.execs = 2;
         v.compared = 1;
         v.nontrivial = has_nested_container(&c.val);
-        match roundtrip(&c.val, &c.opts) {
+        UNKNOWN_LEN.with(|f| f.set(c.no_len));
+        let rt = roundtrip(&c.val, &c.opts);
+        UNKNOWN_LEN.with(|f| f.set(false));
+        match rt {
             Ok(text) => {
                 v.outcome = hash64(&(text.lines().count().min(6), text.contains('{') || text.contains('['), text.contains("? ")));
             }
@@ -292,12 +298,12 @@ impl Prop for C13 {
             out.push(Case { opts: o, ..c.clone() });
         }
         for s in shrink_dyn(&c.val) {
-            out.push(Case { val: s, opts: c.opts });
+            out.push(Case { val: s, opts: c.opts, no_len: c.no_len });
         }
         out
     }
     fn key(&self, c: &Case, clause: &str) -> String {
-        format!("{}|{:?}|{}", clause, c.val, c.opts.label())
+        format!("{}|{:?}|{}{}", clause, c.val, c.opts.label(), if c.no_len { "|no length hints" } else { "" })
     }
 }
 
@@ -330,7 +336,7 @@ pub fn run(ctx: &Ctx) -> i32 {
         let total = list.len() as u64 * lopts.len() as u64;
         let a = run_indexed(&p, total, |i| {
             let o = lopts[(i % lopts.len() as u64) as usize];
-            Some(Case { val: list[(i / lopts.len() as u64) as usize].clone(), opts: o })
+            Some(Case { val: list[(i / lopts.len() as u64) as usize].clone(), opts: o, no_len: false })
         });
         acc = acc.merge(a);
     }
@@ -347,14 +353,25 @@ pub fn run(ctx: &Ctx) -> i32 {
     extra.push(SerOpts { wrap: 1, indent: 3, compact: true, ..SerOpts::default() });
     let small: Vec<&Dyn> = by.iter().take(ctx.tier.pick(4, 5)).flatten().collect();
     let total = small.len() as u64 * extra.len() as u64;
-    let a = run_indexed(&p, total, |i| Some(Case { val: small[(i / extra.len() as u64) as usize].clone(), opts: extra[(i % extra.len() as u64) as usize] }));
+    let a = run_indexed(&p, total, |i| Some(Case { val: small[(i / extra.len() as u64) as usize].clone(), opts: extra[(i % extra.len() as u64) as usize], no_len: false }));
     acc = acc.merge(a);
     {
         // an indentation step of 1 on everything up to 4 nodes
         let o1 = [SerOpts { indent: 1, ..SerOpts::default() }, SerOpts { indent: 1, compact: true, ..SerOpts::default() }];
         let upto4: Vec<&Dyn> = by.iter().take(5).flatten().collect();
         let total = upto4.len() as u64 * 2;
-        let a = run_indexed(&p, total, |i| Some(Case { val: upto4[(i / 2) as usize].clone(), opts: o1[(i % 2) as usize] }));
+        let a = run_indexed(&p, total, |i| Some(Case { val: upto4[(i / 2) as usize].clone(), opts: o1[(i % 2) as usize], no_len: false }));
+        acc = acc.merge(a);
+    }
+    {
+        // no length hints (serialize_seq(None) / serialize_map(None), as serde's collect_seq over a filtering
+        // iterator gives): every value up to 4 nodes x the layout-relevant option vectors
+        let nl_opts = [SerOpts::default(), SerOpts { compact: true, ..SerOpts::default() }, SerOpts { indent: 4, ..SerOpts::default() }, SerOpts { no_empty_braces: true, ..SerOpts::default() }, SerOpts { compact: true, indent: 3, ..SerOpts::default() }];
+        let vals: Vec<&Dyn> = by.iter().take(5).flatten().collect();
+        let no = nl_opts.len() as u64;
+        let total = vals.len() as u64 * no;
+        let a = run_indexed(&p, total, |i| Some(Case { val: vals[(i / no) as usize].clone(), opts: nl_opts[(i % no) as usize], no_len: true }));
+        acc.notes.insert("no_length_hint_pass".into(), json!({"max_nodes": 4, "option_vectors": no, "cases": a.evaluations}));
         acc = acc.merge(a);
     }
     // sibling pass: layout state must not leak from one child into the next. Every two-child parent shape x every
@@ -378,7 +395,7 @@ pub fn run(ctx: &Ctx) -> i32 {
             if x.count() + y.count() + 1 <= max {
                 return None; // already covered by the exhaustive part
             }
-            Some(Case { val: build2(shape, x.clone(), y.clone()), opts: o })
+            Some(Case { val: build2(shape, x.clone(), y.clone()), opts: o, no_len: false })
         });
         acc.notes.insert("sibling_pass".into(), json!({"first_child_max_nodes": 3, "second_child_max_nodes": ctx.tier.pick(2, 3), "parents": ARITY2, "option_vectors": sopts.len(), "cases": a.evaluations}));
         acc = acc.merge(a);
@@ -425,7 +442,7 @@ pub fn run(ctx: &Ctx) -> i32 {
                     None => return None,
                 },
             };
-            Some(Case { val, opts: o })
+            Some(Case { val, opts: o, no_len: false })
         });
         acc.notes.insert("composite_key_entry_pass".into(), json!({"key_max_nodes": 2, "value_max_nodes": 3, "contexts": ["root", "sequence item (twice)", "mapping value", "second entry of a mapping that is a sequence item"], "option_vectors": no, "cases": a.evaluations}));
         acc = acc.merge(a);
